@@ -13,7 +13,7 @@ import ast
 from typing import Dict, FrozenSet, List, Optional, Set, Tuple
 
 from ..model import Program, AnalysisError, dotted, FuncInfo, walk_local
-from ..report import RuleResult
+from ..report import RuleResult, guard
 from ..astutil import src, site, call_name, calls_in
 
 EXPLANATION = (
@@ -687,4 +687,4 @@ def js_relabel(prog: Program) -> RuleResult:
 
 
 def run(prog: Program, tier: str) -> List[RuleResult]:
-    return [js_escape(prog), js_registry(prog), js_relabel(prog)]
+    return [guard(lambda: js_escape(prog)), guard(lambda: js_registry(prog)), guard(lambda: js_relabel(prog))]
